@@ -5,7 +5,7 @@
  * generations are solver variables.
  *
  *  a / b   open an iterator on handle A / B        x / y   close the oldest open iterator of A / B
- *  g / h   keyed lookup (mtbl_source_get) on A / B: may match nothing; a returned iterator is kept like a/b
+ *  g / h   keyed lookup (mtbl_source_get) on A / B that matches nothing in any table; a returned iterator object is kept like a/b
  *  r / R   mtbl_fileset_reload / reload_now on A   q / Q   the same on B
  *  c       the setfile changes (new arbitrary subset of three names)
  *  t       time passes (clock advances by an arbitrary amount >= 0)
@@ -205,8 +205,9 @@ mtbl_res mtbl_iter_seek(struct mtbl_iter *it, const uint8_t *k, size_t kl) { (vo
 struct mtbl_iter *mtbl_source_get(const struct mtbl_source *s, const uint8_t *k, size_t kl)
 {
 	(void)k; (void)kl;
-	if (s->is_merger && vn_bool())
-		return NULL;
+	if (s->is_merger)
+		return NULL;	/* the interesting case, taken concretely: a symbolic choice here would merge a
+				 * NULL and a non-NULL iterator into every later pointer */
 	if (!s->is_merger)
 		return s->get(s->clos, k, kl);
 	return mtbl_source_iter(s);
